@@ -94,6 +94,71 @@ func c15Cmd(c *Ctx) {
 		if t.Flags["AllowUnsafe"] {
 			bad = "AllowUnsafe is switched on"
 		}
+		// attribute rules, global rules and schemes beyond the base are exactly the documented ones
+		if ugc != nil && want.Base == "UGCPolicy" {
+			key := func(r policyx.AttrRule) string { return fmt.Sprintf("%s|%v|%s", r.Attr, r.HasPat, r.Pattern) }
+			got := map[string]bool{}
+			for el, rs := range t.ElemAttrs {
+				base := map[string]bool{}
+				for _, r := range ugc.ElemAttrs[el] {
+					base[key(r)] = true
+				}
+				for _, r := range rs {
+					if !base[key(r)] {
+						got[el+"@"+r.Attr] = true
+					}
+				}
+			}
+			doc := map[string]bool{}
+			for el, as := range want.Attrs {
+				for _, a := range as {
+					doc[el+"@"+a] = true
+				}
+			}
+			for _, k := range sortedKeys(got) {
+				if !doc[k] {
+					bad = "undocumented attribute rule " + k + " (element@attribute)"
+				}
+			}
+			for _, k := range sortedKeys(doc) {
+				if !got[k] {
+					bad = "documented attribute rule " + k + " (element@attribute) missing"
+				}
+			}
+			gbase, ggot, gdoc := map[string]bool{}, map[string]bool{}, setOf(want.Global)
+			for _, r := range ugc.GlobalAttrs {
+				gbase[key(r)] = true
+			}
+			for _, r := range t.GlobalAttrs {
+				if !gbase[key(r)] {
+					ggot[r.Attr] = true
+				}
+			}
+			for _, k := range sortedKeys(ggot) {
+				if !gdoc[k] {
+					bad = "undocumented global attribute rule " + k
+				}
+			}
+			for _, k := range sortedKeys(gdoc) {
+				if !ggot[k] {
+					bad = "documented global attribute rule " + k + " missing"
+				}
+			}
+			sdoc := setOf(want.Schemes)
+			for s := range t.Schemes {
+				if _, ok := ugc.Schemes[s]; !ok && !sdoc[s] {
+					bad = "undocumented URL scheme " + s
+				}
+			}
+			for s := range sdoc {
+				if _, ok := t.Schemes[s]; !ok {
+					bad = "documented URL scheme " + s + " missing"
+				}
+			}
+			if len(t.ElemPatterns) != len(ugc.ElemPatterns) || len(t.SchemeRegexps) != len(ugc.SchemeRegexps) {
+				bad = "undocumented element or scheme patterns"
+			}
+		}
 		R.Check(bad == "", "C15.R5", name+":policy", "cmd/"+name+": policy built in main", pos, "documented policy ("+want.Base+" plus the documented additions)", "the tool's policy differs from its documentation: "+bad)
 		// I/O shape
 		okIO, why := cmdIO(main, sanCall)
